@@ -118,11 +118,15 @@ func checkCarried(c *run.Case, w *run.Worker, site, key string, raw, got error) 
 	}
 	switch {
 	case !strings.Contains(gs.Message(), rs.Message()):
-		c.Violation(site+":error-is-not-the-shards-error", "shard %s failed with %q; the composite returned %q, which does not contain it", showKey(key), rs.Message(), gs.Message())
+		// beyond the statement ("errors carry the shard key"): observed only
+		w.Count("observed_error_is_not_the_shards_error", 1)
+		if !strings.Contains(gs.Message(), key) {
+			c.Violation(site+":error-without-shard-key", "shard %s failed with %q; the composite returned %q, which does not carry the key", showKey(key), rs.Message(), gs.Message())
+		}
 	case !strings.Contains(gs.Message(), key):
 		c.Violation(site+":error-without-shard-key", "shard %s failed with %q; the composite returned %q, which does not carry the key", showKey(key), rs.Message(), gs.Message())
 	case gs.Code() != rs.Code():
-		c.Violation(site+":error-code-changed", "shard %s failed with code %v; the composite returned code %v (%q)", showKey(key), rs.Code(), gs.Code(), gs.Message())
+		w.Count("observed_error_code_changed", 1) // beyond the statement: observed only
 	}
 }
 
@@ -521,7 +525,15 @@ func findMissingOp(c *run.Case, w *run.Worker, r *gen.Rng, which int, ba blobsto
 				return
 			}
 		}
-		c.Violation(site+":error-is-not-the-shards-error", "FindMissing returned %q, which is none of the shards' failures %v", gs.Message(), failures)
+		// None of the failing shards' messages is contained: the error still has
+		// to carry the key of one failing shard.
+		for _, f := range failures {
+			if strings.Contains(gs.Message(), f.key) {
+				w.Count("observed_error_is_not_the_shards_error", 1)
+				return
+			}
+		}
+		c.Violation(site+":error-without-shard-key", "FindMissing returned %q, which carries the key of none of the failing shards %v", gs.Message(), failures)
 		return
 	}
 	if hostile {
